@@ -766,7 +766,8 @@ struct RegHarness : Harness {
             {"set", register_set(&S.tbl, 0, v)}, {"set_unsafe", register_set_unsafe(&S.tbl, 0, v)}, {"get", register_get(&S.tbl, 0, &o)},
             {"bit_set", register_bit_set(&S.tbl, 0, v)}, {"bit_clear", register_bit_clear(&S.tbl, 0, v)}, {"default", register_default(&S.tbl, 0, &o)},
             {"block_read", register_block_read(&S.tbl, 0, 1, buf)}, {"block_write", register_block_write(&S.tbl, 0, 1, buf)},
-            {"foreach_in", register_foreach_in(&S.tbl, 0, 4, iter_cb, nullptr)}, {"sanitise", register_sanitise(&S.tbl)}};
+            {"foreach_in", register_foreach_in(&S.tbl, 0, 4, iter_cb, nullptr)}, {"sanitise", register_sanitise(&S.tbl)},
+            {"block_read_of_length_0", register_block_read(&S.tbl, 0, 0, buf)}, {"block_write_of_length_0", register_block_write(&S.tbl, 0, 0, buf)}};
         for (auto &x : r) { c.execs++; c.mix((uint64_t)x.a.code); if (x.a.code != REG_ACCESS_UNINITIALISED) { c.fail(std::string("uninit.") + x.n, "%s on a table whose initialisation failed returned %s", x.n, code_name(x.a.code)); return; } }
     }
 
